@@ -32,7 +32,10 @@ THEOREMS = [
     "C01_emit_reject", "C01_emit_noperand", "C01_length", "C01_length_agree", "C01_get_emitter", "C01_get_emitter_ok",
     "C01_accepted_is_isa", "C01_undefined_rejected", "C01_isa_matrix_wf", "C01_oracle_accept_sound",
     "C01_oracle_reject_sound", "C01_shape_key", "C01_shape",
+    "C01_text_scan", "C01_operand_syntax_mode", "C01_text_passes", "C01_text_passes_rejected", "C01_text", "C01_text_plain",
+    "C01_text_implied", "C01_text_rejected", "C01_text_generic",
 ]
+PROOF_HEADER = "From A816 Require Import Properties.C01 Properties.C01Text."
 # model-tie modules whose correspondence is part of this property's check (parts of the model its theorems rest on)
 TIES = ['PARSE']
 RULE = ("every mnemonic of the live table x 19 operand shapes (implied, #v, v, v,x v,y v,s (v) (v),y [v] [v],y (v,x) "
@@ -45,8 +48,14 @@ PROVED_NOTE = ("proved for all Z / all tables: the width rule (hex digit count <
                "get_emitter rejections; for any table with table_ok = true every accepted OpcodeNode emission equals the "
                "encoding computed from the independent 256-opcode matrix; per run: table_ok / supported_ok of the "
                "regenerated live table by vm_compute. operand syntax -> (mode, index, size, operand) proved on the parser model for the ten statement "
-               "shapes (C01_shape) with the malformed index combinations rejected. Correspondence-only: that the scanner "
-               "produces those token shapes from text (SCAN tie) and that cpu_65c816.py/nodes.py compute what Model/Opcode.v computes.")
+               "shapes (C01_shape) with the malformed index combinations rejected. WHOLE PIPELINE ON SOURCE TEXT "
+               "(Properties/C01Text.v): for `*=<org>` newline `<mnemonic>[.b|.w|.l] <operand>` in EVERY operand syntax (none, #e, e, e,i, "
+               "(e), (e),i, [e], [e],i, (e,i), (e,s),y), any letter case, arbitrary spacing, any closed operand expression: "
+               "the scanner yields the statement's tokens, the parser the addressing mode of that syntax (operand syntax -> mode), and "
+               "assemble_source yields exactly one block = the table row's encoding (opcode byte of the resolved width + LE operand) at "
+               "the LoROM offset, or a rejection when the live table has no row; side conditions discharged per run on the live tables. "
+               "Not in the text theorem: relative branches (C05), identifiers in operands, emit-time width failures (node level only). "
+               "Correspondence-only: that scanner/parser/cpu_65c816.py/nodes.py compute what the models compute (own matrix + PARSE tie).")
 EXHAUSTIVE = {"quick": False, "thorough": True}
 SHARD = 250
 MANIFEST = {
@@ -57,8 +66,8 @@ MANIFEST = {
              "supported set. Tie: exhaustive statement matrix run through the real assembler, compared with the model on the "
              "parser's AST and with an oracle computed from the statement descriptor through the independent matrix only."),
     "note": ("Trusted: Coq kernel + vm_compute; table translator; correspondence harness; hand-written Spec/Isa65816.v "
-             "(from the WDC data sheet) and the pinned Spec/SupportedSet.v. The operand-syntax -> addressing-mode step is "
-             "covered by the exhaustive matrix, not by a proof."),
+             "(from the WDC data sheet) and the pinned Spec/SupportedSet.v. The operand-syntax -> addressing-mode step is proved "
+             "on the parser model (C01_operand_syntax_mode) and tied by the exhaustive matrix."),
     "technique": "Coq proof over a Gallina model + regenerated tables + exhaustive differential correspondence with vm_compute",
 }
 
@@ -77,8 +86,26 @@ def instantiate(gen_q):
         "Definition C01_accepted_is_isa_live := C01_accepted_is_isa _ live_table_ok.\n"
         "Definition C01_undefined_rejected_live := C01_undefined_rejected _ live_table_ok.\n"
     )
+    # the whole-pipeline text theorem on the live tables (bus, busmap, precedence table; lexicon and opcode table are
+    # the live ones inside L01)
+    text += (
+        "From A816 Require Import Model.Assemble Spec.BusLaws Proofs.BusProofs Proofs.ExprProofs Proofs.DataText "
+        "Proofs.InsnTextScan Proofs.InsnTextParse Proofs.InsnTextGen Proofs.InsnText Properties.C01Text.\n"
+        "Require Import Run.GenBuses Run.GenLexicon.\n"
+        "Definition L01 : live := {| lv_low := Run.GenBuses.low_rom_bus; lv_high := Run.GenBuses.high_rom_bus; "
+        "lv_busmap := Run.GenBuses.bus_mapping; lv_optable := Run.GenOpcodes.opcode_table; "
+        "lv_prec := Run.GenOpcodes.operator_precedence; "
+        "lv_lex := mk_lexicon Run.GenLexicon.mnemonics Run.GenLexicon.mnemonics_without_operand Run.GenLexicon.keywords |}.\n"
+        "Definition C01_default : config := {| cf_rom := None; cf_defines := [] |}.\n"
+        "Lemma L01_bus : bus_agree_b (lv_low L01) lorom = true. Proof. vm_compute. reflexivity. Qed.\n"
+        "Lemma L01_cfg : low_rom_config L01 C01_default. Proof. split; [vm_compute; reflexivity|exact I]. Qed.\n"
+        "Lemma L01_prec : prec_compatible (lv_prec L01) = true. Proof. vm_compute. reflexivity. Qed.\n"
+        "Definition C01_text_live fs fname sp0 eorg org mn sz os sh e i1 i2 v em bs rc0 := "
+        "C01_text L01 fs C01_default fname sp0 eorg org mn sz os sh e i1 i2 v em bs rc0 L01_bus L01_cfg L01_prec.\n"
+        "Definition C01_text_rejected_live := fun fs fname => C01_text_rejected L01 fs C01_default fname.\n"
+    )
     return text, ["C01_table_sound", "C01_supported_kept", "C01_supported_assembles_live", "C01_accepted_is_isa_live",
-                  "C01_undefined_rejected_live"]
+                  "C01_undefined_rejected_live", "C01_text_live", "C01_text_rejected_live"]
 
 
 # ----------------------------------------------------------------------------- the matrix
